@@ -9,7 +9,7 @@ FIX_COMMITS = ["b26044a", "584cccc", "84460e9", "acfe447", "262d9d2", "8a3d93d",
 # what later rounds added to each check (entry points, inputs, clauses); appended to the level text
 ALSO = {
  "C01": "Also driven: compileInterpolatableOTFsFromDS families where a composite is drawn as contours in some masters, skipExportGlyphs lists, colour-layer fonts (glyph-set keys differ from glyph names). Colour alternates '<glyph>.<layer>' are declared source glyphs with advances of their own. ColorLayers.tla / ColorTrace: COLR v0 / CPAL records of the colour cases equal the model.",
- "C02": "Also driven: compileInterpolatableTTFs / FromDS families with mixed glyphs holding enlarged cubic components; the unrounded TTFPreProcessor result is measured against the configured conversion error (explicit errors, small ems); a source '.notdef'. The variable TrueType font itself is read back at every master (a two-component composite whose second 2x2 differs in one master). Sources carrying the cu2qu 'already quadratic' marker compiled not in place.",
+ "C02": "Also driven: compileInterpolatableTTFs / FromDS families with mixed glyphs holding enlarged cubic components; the unrounded TTFPreProcessor result is measured against the configured conversion error (explicit errors, small ems); a source '.notdef'. The variable TrueType font itself is read back at every master (a two-component composite whose second 2x2 differs in one master). Sources carrying the cu2qu 'already quadratic' marker compiled not in place. Cubic curves with convertCubics=False (the compile has to refuse).",
  "C03": "Every fourth case enters through compileVariableTTF or an interpolatable master; requested orders with duplicates / partial lists through the glyphOrder argument. Fonts with generated layout and Indic / right-to-left / supplementary code points (the feature writers must not touch the cmap).",
  "C04": "Every fourth case enters through a designspace function; the returned font's derived fields are compared with the saved ones; degenerate (single-point) outlines. TrueType glyph programs on simple and composite glyphs; every glyph-derived maxp count is compared with the stored glyf data.",
  "C05": "Also: the variable-features path of both writers (kernFeatureWriter2 through the lib key), reused writer instances, non-default language systems in any declaration order, the mark writer alongside, neutral-bidi glyphs of right-to-left scripts; KernSplitMC models the script-split writer at design level. KernDirMC models the direction-split writer (kernFeatureWriter2) the same way: C05 holds there without a signature for non-mixed pairs; F-C05-3 certified by a must-fail config. Right-to-left letters against Inherited-only marks on the second side.",
@@ -17,14 +17,14 @@ ALSO = {
  "C07": "Also: nested / mixed composites with lib-selected pre-filters on families, per-master skip lists through compileInterpolatableTTFs, variable fonts with public.fontInfo overrides, explicit list-valued info attributes. In-memory designspaces with unnamed / duplicate source names.",
  "C08": "Also: sources with lib-selected filters (PropagateAnchors on ligature marks, DottedCircle averaging with order-sensitive decimals), mark-class conflict graphs under 9 hash seeds, one caller-owned ftConfig object across the calls of a history, variable fonts with info overrides. Nested composites flattened after an earlier filter changed the intermediate glyph, inplace vs copy. Contextual mark anchors (identifier + public.objectLibs), inplace vs copy.",
  "C09": "Also: component 2x2 as part of the TrueType structure, stand-alone sparse UFO masters, nested composites in sparse masters with flattenComponents, lib-selected post filters; fixed shares for the directed patterns. compileVariableTTFs / CFF2s with a full and a lower-range variable font sharing masters, each read back at its masters. VFSplit.tla (+ VFSplitTrace): which sources a designspace-v5 build compiles together and each variable font's base master, two must-fail design alternatives. Per-glyph clause for glyphs mixed in some masters only (jointly-fixable-glyphs-stay-compatible).",
- "C10": "Also: kernFeatureWriter2, masters without kerning, a base used twice with a 2x2 differing in one master, glyph-to-class exceptions missing in one master, first/last-agreeing values; FeaPipeline!OnlyAdds observed on Writer events. Several variable fonts per designspace; a zero-valued glyph-to-class exception in every master; composites compared by what they draw. A kerning group only a non-default master defines.",
+ "C10": "Also: kernFeatureWriter2, masters without kerning, a base used twice with a 2x2 differing in one master, glyph-to-class exceptions missing in one master, first/last-agreeing values; FeaPipeline!OnlyAdds observed on Writer events. Several variable fonts per designspace; a zero-valued glyph-to-class exception in every master; composites compared by what they draw. A kerning group only a non-default master defines. Instances also compared with the masters' SOURCES (straight-line glyphs, point sets); flattenComponents on nested composites.",
  "C11": "Also: variable TTF / CFF2, collision chains, non-BMP ligature parts, double suffixes, rename rotations; the derived-name rule is a property clause; outlines compared index by index. keepGlyphNames lib key together with the explicit argument.",
- "C12": "Also: compileVariableCFF2 (levels 0-2, instantiated at masters) and compileInterpolatableOTFsFromDS with a segment degenerating in one master; the advance each CFF charstring declares; rename rotations. Negative nominal / zero default widths.",
- "C13": "Also: SkipVarTrace.tla -- variable TTF / CFF2 and interpolatable masters with sparse layers, skipped-inside-skipped chains, differently built masters, a second axis with a partial-location sparse source. A non-default layer compiled on its own (layerName) with the skip list from the font lib or the argument. Static instances of a designspace (designspace list vs a stale list in the default source).",
- "C14": "Also: dotted-circle shaped glyph sets with an existing U+25CC, colour glyph sets (keys differ from names). Separate glyph sets given as plain dicts; non-default filter options (rememberCurveType, conversionError, ...). Empty include lists.",
+ "C12": "Also: compileVariableCFF2 (levels 0-2, instantiated at masters) and compileInterpolatableOTFsFromDS with a segment degenerating in one master; the advance each CFF charstring declares; rename rotations. Negative nominal / zero default widths. Smooth quadratic splines through all option combinations.",
+ "C13": "Also: SkipVarTrace.tla -- variable TTF / CFF2 and interpolatable masters with sparse layers, skipped-inside-skipped chains, differently built masters, a second axis with a partial-location sparse source. A non-default layer compiled on its own (layerName) with the skip list from the font lib or the argument. Static instances of a designspace (designspace list vs a stale list in the default source). SkipResolve.tla: skip-list resolution per entry point with two must-fail designs.",
+ "C14": "Also: dotted-circle shaped glyph sets with an existing U+25CC, colour glyph sets (keys differ from names). Separate glyph sets given as plain dicts; non-default filter options (rememberCurveType, conversionError, ...). Empty include lists. One filter object (with include / exclude) shared by the masters of an interpolatable pre-processor run.",
  "C15": "Also: PropagateAnchors.tla, a functional model of anchor propagation bound through FilterTrace, certified against the C15 clauses by PropagateMC (48,673 glyph sets); a completeness clause; two-font histories for the transformations filter. The interpolatable pre-processor pipeline with a sparse master (propagate anchors, transform the bases, decompose) judged by PipelineTrace against hand-transformed declared sources. Flatten / decompose chains of depth 3-4 with non-identity first leaves.",
  "C16": "Also: bit-list attributes, OS/2 sub/superscript/strikeout metrics, weight / width class, version, unique ID, vendor, fixed pitch, the vhea cluster, thirteen plain name records, variable-font info overrides. Two variable fonts cut from one designspace, one with its default moved to a master with different info. Variable fonts sharing a default master with disjoint override keys. InfoOverrides.tla: copy vs alias of the base master's info across variable fonts (must-fail config).",
- "C17": "Also: GDEF table blocks statement by statement (classes, carets by position / contour point), Devanagari abvm / blwm blocks, empty feature blocks. A caller-owned featureWriters list [...] reused across fonts.",
+ "C17": "Also: GDEF table blocks statement by statement (classes, carets by position / contour point), Devanagari abvm / blwm blocks, empty feature blocks. A caller-owned featureWriters list [...] reused across fonts. WritersList.tla: fresh list vs in-place expansion of the placeholder (must-fail config).",
  "C18": "Also: reused writer instances, designspace rule substitutions, variable anchors with a sparse layer read back at three locations, compound cursive suffixes; FeaPipeline.tla models the shared feature-file AST (fails for the pre-fix design). Contextual / ligature substitutions whose input or context holds a direction-neutral glyph. The default source not listed first, the first-listed master with other / no glyph categories.",
  "C19": "Also: the empty-master rule, kerning-less masters, kerning and ordinary groups following rule swaps, instantiation failures as property failures. Non-dyadic instance locations (axis 0..10) with float noise snapped and representability demanded. Two-axis families with off-axis masters against the variation model in designspace axis order.",
  "C20": "Also: every language system (not only the default one), scripts with two OpenType tags and with three-letter tags, any declaration order, variable / merged / interpolatable entry points. Scripts chained by kerning pairs that straddle two of them, in every listing order; kerning-reachable-where-it-acts. Scripts encoded above U+FFFF.",
